@@ -65,12 +65,13 @@ Definition slru_peek_lru (s : slru) : option N :=
             end
   end.
 
-(* SlruPolicy::on_admit: a key already in either segment is left alone
-   (finding F-19: a re-admission with a different cost keeps the old cost) *)
+(* SlruPolicy::on_admit: a key already in the protected segment is refreshed
+   there with the new cost; anything else is pushed to the probationary front
+   (`push_front` updates the cost of an existing key) *)
 Definition slru_admit (k c : N) (s : slru) : slru :=
-  if andb (negb (ll_has k (sl_prot s))) (negb (ll_has k (sl_prob s)))
-  then mkSlru (ll_push_front k c (sl_prob s)) (sl_prot s)
-  else s.
+  if ll_has k (sl_prot s)
+  then mkSlru (sl_prob s) (ll_push_front k c (sl_prot s))
+  else mkSlru (ll_push_front k c (sl_prob s)) (sl_prot s).
 
 Definition slru_remove (k : N) (s : slru) : slru :=
   if ll_has k (sl_prob s) then mkSlru (ll_remove k (sl_prob s)) (sl_prot s)
